@@ -210,7 +210,15 @@ def main(argv=None):
   if replay:
     with open(replay) as f:
       case = json.load(f)
-    v = mod.replay(case["case"])
+    if isinstance(case["case"], dict) and case["case"].get("aborted"):
+      # the artefact is the traceback; replaying means running the tier again
+      try:
+        mod.run(Report(pid, mod.LEVEL), case["case"].get("tier", "quick"), seed)
+        v = []
+      except Exception:  # pylint: disable=broad-except
+        v = [{"key": case["key"], "summary": traceback.format_exc().strip().splitlines()[-1][:200]}]
+    else:
+      v = mod.replay(case["case"])
     for x in v:
       print("REPLAY-VIOLATION property=%s key=%s %s" % (pid, x["key"], x["summary"]))
     if not v:
@@ -219,7 +227,24 @@ def main(argv=None):
 
   t0 = time.time()
   rep = Report(pid, mod.LEVEL)
-  mod.run(rep, tier, seed)
+  try:
+    mod.run(rep, tier, seed)
+  except Exception:  # pylint: disable=broad-except
+    # An exception raised inside the code under test (a frame in the checked repository) that a
+    # check did not anticipate aborts the exploration: report it as a violation of the property
+    # being explored (with the traceback as the replayable artefact), never as a silent pass.
+    # An exception with no frame in the repository is a harness error (exit 2).
+    tb = traceback.format_exc()
+    inside = [ln.strip() for ln in tb.splitlines() if ln.strip().startswith('File "' + os.path.realpath(boot.REPO) + os.sep)]
+    if not inside:
+      print(tb)
+      print("FRAMEWORK-ERROR property=%s: the check raised outside the code under test" % pid)
+      return 2
+    rep.cap("exploration aborted by an exception raised in the code under test")
+    last = tb.strip().splitlines()[-1][:200]
+    rep.violation(sha("aborted|" + inside[-1].split(", in ")[-1] + "|" + last.split(":")[0]),
+                  "exploration aborted: %s (raised at %s)" % (last, inside[-1]),
+                  {"aborted": True, "tier": tier, "traceback": tb[-6000:]})
   wall = time.time() - t0
 
   new, seen = [], set()
@@ -246,7 +271,7 @@ def main(argv=None):
         json.dump({"property": pid, "key": v["key"], "summary": v["summary"],
                    "case": v["case"],
                    "how": "./check %s --replay %s" % (pid, path)}, f, indent=1, default=str)
-      if n < confirm_n and getattr(mod, "CONFIRM", True):
+      if n < confirm_n and getattr(mod, "CONFIRM", True) and not (isinstance(v["case"], dict) and v["case"].get("aborted")):
         ok, out = _confirm(pid, path)
         if not ok:
           print("FRAMEWORK-ERROR property=%s: violation %s did not reproduce in a fresh process\n%s"
